@@ -545,8 +545,10 @@ def cmd_selftest_mutants(names):
                 open(ev, "w").write(keep)
             first = [l for l in p.stdout.splitlines() if l.startswith("  ")][:1]
             verdict = "caught" if p.returncode == 1 else ("HARNESS-ERROR" if p.returncode == 2 else "MISSED")
+            if verdict == "MISSED" and mj.get("expected") == "missed":
+                verdict = "missed (recorded as not covered, see its meta.json)"
             print("%-55s %s by %s quick in %.0fs %s" % (os.path.basename(d), verdict, pid, time.time() - t0, (first[0].strip()[:110] if first else "")))
-            if p.returncode != 1:
+            if p.returncode != 1 and not (p.returncode == 0 and mj.get("expected") == "missed"):
                 bad += 1
         finally:
             shutil.rmtree(scratch, ignore_errors=True)
